@@ -25,7 +25,7 @@ From PV Require Import Base.RealTac Spec.LibSpecs Spec.Ellipsoid Spec.NavODE.
 From PV Require Import Gen.Transform Gen.C04Gen Proofs.C04Proofs.
 Open Scope R_scope.
 
-(** F + N is the linearisation of the navigation equations in the library's error coordinates: every state with |lat| < 90 deg, alt >= -1000 km, every error direction x (hence each e_k), every sensor input, all 15 components *)
+(** F + N is the linearisation of the navigation equations in the library's error coordinates: every state with |lat| < 90 deg, alt >= -1000 km, every error direction x (hence each e_k, k = 1..9), every sensor input, all 15 components.  Blocks: PHI and DV columns (gravity-tilt -[g x], Coriolis -[(2 Omega + rho) x], DR/PHI [v x], PHI/PHI) and the DR columns, each with its explicit remainder N *)
 Theorem C04_errdyn_is_linearisation : forall s roll pitch heading m x, dom s ->
   is_derive (lin nav_rhs_lat s_lat s m x) 0 (s_lat (pdelta s (errdyn s roll pitch heading x))) /\
   is_derive (lin nav_rhs_lon s_lon s m x) 0 (s_lon (pdelta s (errdyn s roll pitch heading x))) /\
@@ -89,7 +89,107 @@ Theorem C04_errdyn_split : forall s roll pitch heading x,
 Proof. exact errdyn_split. Qed.
 Print Assumptions C04_errdyn_split.
 
+(** every entry of N is bounded by an explicit constant on the flight envelope (interval arithmetic) *)
+Theorem C04_neglected_small : forall s, flight_domain s ->
+  Rabs (N00 s) <= 5 / 100000 /\
+  Rabs (N02 s) <= 5 / 100000 /\
+  Rabs (N10 s) <= 3 / 10000 /\
+  Rabs (N11 s) <= 33 / 100000 /\
+  Rabs (N12 s) <= 5 / 100000 /\
+  Rabs (N30 s) <= 4 / 1000000000 /\
+  Rabs (N36 s) <= 22 / 1000 /\
+  Rabs (N37 s) <= 22 / 1000 /\
+  Rabs (N38 s) <= 22 / 1000 /\
+  Rabs (N40 s) <= 5 / 1000000000 /\
+  Rabs (N47 s) <= 31 / 1000 /\
+  Rabs (N50 s) <= 13 / 1000000000 /\
+  Rabs (N56 s) <= 22 / 1000 /\
+  Rabs (N57 s) <= 22 / 1000 /\
+  Rabs (N58 s) <= 22 / 1000 /\
+  Rabs (N60 s) <= 3 / 100000000000000 /\
+  Rabs (N62 s) <= 8 / 1000000000000 /\
+  Rabs (N70 s) <= 8 / 100000000000000 /\
+  Rabs (N72 s) <= 8 / 1000000000000 /\
+  Rabs (N80 s) <= 3 / 10000000000 /\
+  Rabs (N82 s) <= 5 / 100000000000.
+Proof. exact neglected_small. Qed.
+Print Assumptions C04_neglected_small.
+
+(** the generated 7-state F is T23 * F * T32(VN, VE) exactly, with the generated TRANSFORM_2D_3D and _transform_3d_2d *)
+Theorem C04_reduction_2d_F : forall lat lon alt VN VE VD roll pitch heading (i j : nat), (i < 7)%nat -> (j < 7)%nat ->
+  F2m lat lon alt VN VE VD roll pitch heading i j = mmul9 T23m (mmul9 (F3m lat lon alt VN VE VD roll pitch heading) (T32m VN VE)) i j.
+Proof. exact reduction_2d_F. Qed.
+Print Assumptions C04_reduction_2d_F.
+
+(** the generated 7-state B matrices are T23 * B *)
+Theorem C04_reduction_2d_B : forall lat lon alt VN VE VD roll pitch heading (i j : nat), (i < 7)%nat -> (j < 3)%nat ->
+  G2m lat lon alt VN VE VD roll pitch heading i j = mmul9 T23m (G3m lat lon alt VN VE VD roll pitch heading) i j /\
+  A2m lat lon alt VN VE VD roll pitch heading i j = mmul9 T23m (A3m lat lon alt VN VE VD roll pitch heading) i j.
+Proof. exact reduction_2d_B. Qed.
+Print Assumptions C04_reduction_2d_B.
+
+(** TRANSFORM_2D_3D (generated) selects the states DR1 DR2 DV1 DV2 PHI1 PHI2 PHI3 *)
+Theorem C04_t23_is_selection : forall i j : nat, (i < 7)%nat -> (j < 9)%nat ->
+  T23m i j = if Nat.eqb j (sel7 i) then 1 else 0.
+Proof. exact t23_is_selection. Qed.
+Print Assumptions C04_t23_is_selection.
+
+(** TRANSFORM_2D_3D * _transform_3d_2d(VN, VE) = I7 *)
+Theorem C04_t23_t32_identity : forall (VN VE : R) (i j : nat), (i < 7)%nat -> (j < 7)%nat ->
+  mmul9 T23m (T32m VN VE) i j = if Nat.eqb i j then 1 else 0.
+Proof. exact t23_t32_identity. Qed.
+Print Assumptions C04_t23_t32_identity.
+
+(** the lift puts the 7-state error on the surface dr3 = 0, dv3 = VE phi1 - VN phi2 *)
+Theorem C04_t32_constraint_row : forall (VN VE : R),
+  T32m VN VE 5%nat 4%nat = VE /\ T32m VN VE 5%nat 5%nat = - VN /\
+  T32m VN VE 2%nat 0%nat = 0 /\ T32m VN VE 2%nat 1%nat = 0 /\ T32m VN VE 2%nat 2%nat = 0 /\ T32m VN VE 2%nat 3%nat = 0 /\
+  T32m VN VE 2%nat 4%nat = 0 /\ T32m VN VE 2%nat 5%nat = 0 /\ T32m VN VE 2%nat 6%nat = 0.
+Proof. exact t32_constraint_row. Qed.
+Print Assumptions C04_t32_constraint_row.
+
+(** one step of propagate_errors (9 states): identity at dt = 0 and derivative (F_k + F_k+1)/2 x + (B_k + B_k+1)/2 e at dt = 0 (trapezoid); with F_k+1 = F_k this is F x + B_gyro e_g + B_accel e_a *)
+Theorem C04_propagate_consistent_3d : forall (Fa Fb Ga Gb Aa Ab : mat) (x eg ea : nat -> R) (i : nat), (i < 9)%nat ->
+  prop3 i 0 Fa Fb Ga Gb Aa Ab x eg ea = x i /\
+  is_derive (fun dt => prop3 i dt Fa Fb Ga Gb Aa Ab x eg ea) 0 (rate3 i Fa Fb Ga Gb Aa Ab x eg ea).
+Proof. exact propagate_consistent_3d. Qed.
+Print Assumptions C04_propagate_consistent_3d.
+
+(** the same for the 7-state recursion *)
+Theorem C04_propagate_consistent_2d : forall (Fa Fb Ga Gb Aa Ab : mat) (x eg ea : nat -> R) (i : nat), (i < 7)%nat ->
+  prop2 i 0 Fa Fb Ga Gb Aa Ab x eg ea = x i /\
+  is_derive (fun dt => prop2 i dt Fa Fb Ga Gb Aa Ab x eg ea) 0 (rate2 i Fa Fb Ga Gb Aa Ab x eg ea).
+Proof. exact propagate_consistent_2d. Qed.
+Print Assumptions C04_propagate_consistent_2d.
+
 (** the perturbed (INS) state for the error u x is s + u P(s) x *)
 Theorem C04_pert_scale : forall s x u, pert s (xscale u x) = sadd s u (pdelta s x).
 Proof. exact pert_scale. Qed.
 Print Assumptions C04_pert_scale.
+
+(** the position rows of the chart are the generated transform.perturb_lla(lla, +dr) (what correct_pva inverts) *)
+Theorem C04_pert_position_is_perturb_lla : forall s x, -90 < s_lat s < 90 ->
+  s_lat (pert s x) = perturb_lla_lat (s_lat s) (s_lon s) (s_alt s) (e0 x) (e1 x) (e2 x) /\
+  s_lon (pert s x) = perturb_lla_lon (s_lat s) (s_lon s) (s_alt s) (e0 x) (e1 x) (e2 x) /\
+  s_alt (pert s x) = perturb_lla_alt (s_lat s) (s_lon s) (s_alt s) (e0 x) (e1 x) (e2 x).
+Proof. exact pert_position_is_perturb_lla. Qed.
+Print Assumptions C04_pert_position_is_perturb_lla.
+
+(** non-vacuity: the hypotheses hold on concrete states *)
+Example C04_dom_example : dom (mkS 45 10 100 200 (-100) 5 1 0 0 0 1 0 0 0 1) /\
+  flight_domain (mkS (-60) 10 10000 200 (-100) 5 1 0 0 0 1 0 0 0 1).
+Proof. unfold dom, flight_domain; cbn [s_lat s_alt s_VN s_VE s_VD]. lra. Qed.
+Example C04_att_example : att_is (mkS 45 10 100 200 (-100) 5 1 0 0 0 1 0 0 0 1) 0 0 0.
+Proof.
+  unfold att_is; cbn [s_C00 s_C01 s_C02 s_C10 s_C11 s_C12 s_C20 s_C21 s_C22].
+  unfold mat_from_rph_m00, mat_from_rph_m01, mat_from_rph_m02, mat_from_rph_m10, mat_from_rph_m11,
+    mat_from_rph_m12, mat_from_rph_m20, mat_from_rph_m21, mat_from_rph_m22.
+  repeat autounfold with mat_from_rph_db. rewrite !Rmult_0_l, cos_0, sin_0. repeat split; ring.
+Qed.
+(** the remainder is not identically zero: N36 at a descending state in the northern hemisphere *)
+Example C04_neglected_nonzero : N02 (mkS 0 0 0 100 0 0 1 0 0 0 1 0 0 0 1) <> 0.
+Proof.
+  unfold N02, rn; cbn [s_lat s_alt s_VN]. pose proof (nav_Rn_big 0) as H.
+  intro E. apply Rmult_integral in E. destruct E as [E|E]; [lra|].
+  assert (0 < / (nav_Rn 0 + 0)) by (apply Rinv_0_lt_compat; lra). lra.
+Qed.
